@@ -971,11 +971,11 @@ func planFor(prop, tier string) (*plan, error) {
 				pre.Cancel = "pre"
 				pre.COE = true
 				out = append(out, pre)
-				if n == 2 || p.Flow != nil {
-					th := base(p, n)
-					th.Cancel = "thread"
-					th.COE = true
-					out = append(out, th)
+				if (n == 2 || p.Flow != nil) && (th || n == 1 || jobCount(p, &pre) <= 2) {
+					thr := base(p, n)
+					thr.Cancel = "thread"
+					thr.COE = true
+					out = append(out, thr)
 				}
 				ids := panickable(p)
 				for i, id := range ids {
